@@ -19,8 +19,8 @@ let pend_c : (string * string * n list * n list * n list * n list list) list ref
 let nkeys = ref 0      (* number of keys of all types: the iteration bound of K cases *)
 let nelems = ref 0     (* number of elements of all collections: the bound of E cases *)
 (* live-server scenario: the single-store databases the merged scan is compared with *)
-let srv_kv : n list list ref = ref []
-let srv_hash : n list list ref = ref []
+let srv_kv : n list list list ref = ref []
+let srv_hash : n list list list ref = ref []
 let sort_keys (l : n list list) : n list list =
   List.map bytes_of_hex (List.sort_uniq compare (List.map hex_of_bytes l))
 
@@ -71,22 +71,30 @@ let () =
       let r = iterate_coll mini_compile (nat_of_int (!nelems + 3)) !db (elem_type ct) (bytes_of_hex table) (bytes_of_hex verkey) ex
                 (rev = "1") (bytes_of_hex start) (bytes_of_hex pat) (z_of_int (int_of_string count)) in
       Printf.printf "%s\t%s\n" id (pages_str r)
-    | id :: "W" :: _np :: raws :: decoys :: _ ->
+    | id :: "W" :: np :: raws :: decoys :: rp :: dp :: _ ->
+      (* one store per partition: the keys routed there (the routing itself is C15's subject: an input here) *)
+      let np = int_of_string np in
       let rs = hl_parse raws and ds = hl_parse decoys in
-      srv_kv := sort_keys (List.map (fun r -> match encode_meta_key kv_type r with Ok k -> k | _ -> []) (rs @ ds));
-      srv_hash := sort_keys (List.map (fun r -> size_key hsize_type r) rs);
-      Printf.printf "%s\t%s\n" id (if is_sorted !srv_kv && is_sorted !srv_hash then "ok" else "unsorted")
+      let ints s = if s = "" then [] else List.map int_of_string (split_on ',' s) in
+      let rpi = ints rp and dpi = ints dp in
+      let part l pl p = List.filter_map (fun (k, q) -> if q = p then Some k else None) (List.combine l pl) in
+      srv_kv := List.init np (fun p ->
+        sort_keys (List.map (fun r -> match encode_meta_key kv_type r with Ok k -> k | _ -> []) (part rs rpi p @ part ds dpi p)));
+      srv_hash := List.init np (fun p -> sort_keys (List.map (fun r -> size_key hsize_type r) (part rs rpi p)));
+      Printf.printf "%s\t%s\n" id
+        (if List.for_all is_sorted !srv_kv && List.for_all is_sorted !srv_hash then "ok" else "unsorted")
     | id :: "S" :: _cmd :: tn :: rev :: table :: start :: count :: pat :: _np :: _ ->
-      (* the merged multi-partition iteration must return what the single-store iteration returns *)
-      let d = if tn = "kv" then !srv_kv else !srv_hash in
+      let dbs = if tn = "kv" then !srv_kv else !srv_hash in
       let tb = bytes_of_hex table in
-      let (ps, st) = iterate_keys mini_compile (nat_of_int (List.length d + 3)) d (dtype_of tn) (rev = "1")
-                tb (bytes_of_hex start) (bytes_of_hex pat) (z_of_int (int_of_string count)) in
+      let total = List.fold_left (fun a d -> a + List.length d) 0 dbs in
+      let cnt = int_of_string count in
+      let (mps, st) = merged_keys mini_compile (nat_of_int (total + 3)) dbs (dtype_of tn) (rev = "1")
+                tb (bytes_of_hex start) (bytes_of_hex pat) (cnt <> 0) (z_of_int cnt) in
       let strip k = (* the server strips "table:" from every key *)
         let rec drop i l = if i = 0 then l else (match l with [] -> [] | _ :: r -> drop (i - 1) r) in
         drop (List.length tb + 1) k in
-      let items = List.concat (List.map (fun (its, _) -> List.map strip its) ps) in
+      let items = List.map strip (List.concat mps) in
       let items = List.map bytes_of_hex (List.sort compare (List.map hex_of_bytes items)) in
-      Printf.printf "%s\t%sset=%s perpart=ok\n" id
-        (match st with Done -> "" | OutOfFuel -> "NONTERM " | _ -> "err ") (hl_print items)
+      Printf.printf "%s\t%scalls=%d set=%s perpart=ok\n" id
+        (match st with Done -> "" | OutOfFuel -> "NONTERM " | _ -> "err ") (List.length mps) (hl_print items)
     | _ -> ())
